@@ -98,8 +98,14 @@ def generate(rng, tier):
     return spec
 
 
-def _expected_after_replace(ctx, M, Rm, spec, run, res, smap, replace_all):
-    """Reference-model result of one replace call, given the observed matches/selection.  Returns (expected model, stats)."""
+def _expected_after_replace(ctx, M, Rm, spec, run, res, smap, replace_all, strategy="order"):
+    """Reference-model result of one replace call, given the observed matches/selection.  Returns (expected model, stats, removed).
+    Inserted atoms of the real result have to be identified with replacement-pattern atoms; `strategy` says how:
+      order     - appended match by match in replacement order (what extend does), checked for elements
+      hungarian - globally cheapest assignment to the predicted places (rotation observed at the tap, translation fitted)
+      anchor    - same, translation pinned at the first matched atom
+    A caller tries the strategies in turn: the terms must be right for SOME consistent identification."""
+    from scipy.optimize import linear_sum_assignment
     cell = np.array(spec["cell"], float)
     sel = [run.found[0][i] for i in run.selected]
     nrep = len(Rm.atoms)
@@ -111,7 +117,6 @@ def _expected_after_replace(ctx, M, Rm, spec, run, res, smap, replace_all):
         for a, i in enumerate(m):
             if not (a in retained_pat):
                 removed.add(i)
-    # identify inserted atoms of the real result: not at an original atom's exact position
     rpos = np.array(res.positions, float).reshape(-1, 3)
     rel = list(res.elements)
     index = replcheck.exact_index(rpos)
@@ -124,34 +129,44 @@ def _expected_after_replace(ctx, M, Rm, spec, run, res, smap, replace_all):
             raise Violation("c06:surviving-atom-missing", "atom %d (%s) is removed by no selected match but is not in the result at its position" % (i, a.el), site="replace")
         used.add(cands[0])
     pool = [j for j in range(len(rpos)) if j not in used]
+    only = [r for r in range(nrep) if r not in smap]
+    slots = [(mi, r) for mi in range(len(sel)) for r in only]
+    if len(pool) != len(slots):
+        raise Violation("c06:unexpected-atoms", "%d atoms in the result are neither original atoms nor expected insertions (%d matches x %d inserted atoms)"
+                        % (len(pool), len(sel), len(only)), site="replace")
+    assign = {}
+    if strategy == "order":
+        for k, (mi, r) in enumerate(slots):
+            if rel[pool[k]] != Rm.atoms[r].el:
+                raise Violation("c06:inserted-atom-missing", "inserted atoms are not appended match by match in replacement order", site="replace")
+            assign[(mi, r)] = pool[k]
+    elif slots:
+        cost = np.full((len(slots), len(pool)), 1e6)
+        for k, (mi, r) in enumerate(slots):
+            si = run.selected[mi]
+            X = np.asarray(run.found[1][si], float).reshape(-1, 3)
+            try:
+                R = np.asarray(run.found[2][si].as_matrix(), float)
+            except Exception:
+                R = geom.kabsch(Ps, X)[0] if len(Ps) > 1 else np.eye(3)
+            t = (X - Ps @ R.T).mean(axis=0) if strategy == "hungarian" else X[0] - Ps[0] @ R.T
+            y = Pr[r] @ R.T + t
+            for c, j in enumerate(pool):
+                if rel[j] == Rm.atoms[r].el:
+                    cost[k, c] = replcheck._nearest_image(rpos[j], y, cell)[1]
+        rows, cols = linear_sum_assignment(cost)
+        for k, c in zip(rows, cols):
+            if cost[k, c] >= 1e6:
+                raise Violation("c06:inserted-atom-missing", "no inserted %s atom found for replacement atom %d" % (Rm.atoms[slots[k][1]].el, slots[k][1]), site="replace")
+            assign[slots[k]] = pool[c]
     E = M.clone()
     ns = ("repl", id(run))
     stats = {"terms": 0, "retyped": 0, "superseded": 0}
-    for mi, si in enumerate(run.selected):
-        m = run.found[0][si]
-        X = np.asarray(run.found[1][si], float).reshape(-1, 3)
-        try:
-            R = np.asarray(run.found[2][si].as_matrix(), float)
-        except Exception:
-            R = geom.kabsch(Ps, X)[0] if len(Ps) > 1 else np.eye(3)
-        t = (X - Ps @ R.T).mean(axis=0)
+    for mi, m in enumerate(sel):
         other = Rm.clone()
         imap = {r: m[s] for r, s in smap.items()}
-        for r in range(nrep):
-            if r in imap:
-                continue
-            y = Pr[r] @ R.T + t
-            best, bd = None, np.inf
-            for j in pool:
-                if rel[j] != Rm.atoms[r].el:
-                    continue
-                _, d = replcheck._nearest_image(rpos[j], y, cell)
-                if d < bd:
-                    bd, best = d, j
-            if best is None:
-                raise Violation("c06:inserted-atom-missing", "no inserted %s atom found for replacement atom %d of match %s" % (Rm.atoms[r].el, r, list(m)), site="replace")
-            pool.remove(best)
-            other.atoms[r].pos = tuple(float(x) for x in rpos[best])
+        for r in only:
+            other.atoms[r].pos = tuple(float(x) for x in rpos[assign[(mi, r)]])
         before = sum(len(E.terms[k]) for k in KINDS)
         E.extend(other, index_map=imap, token_ns=ns)
         after = sum(len(E.terms[k]) for k in KINDS)
@@ -159,10 +174,23 @@ def _expected_after_replace(ctx, M, Rm, spec, run, res, smap, replace_all):
         stats["terms"] += nterms
         stats["superseded"] += before + nterms - after
         stats["retyped"] += len(imap)
-    if pool:
-        raise Violation("c06:unexpected-atoms", "%d atoms in the result are neither original atoms nor atoms of the replacement pattern" % len(pool), site="replace")
     E.delete(removed)
     return E, stats, removed
+
+
+def check_replace_result(ctx, M, Rm, spec, run, res, smap, replace_all, prefix, where):
+    """Compare the real result with the reference model under some consistent identification of the inserted atoms."""
+    first = None
+    for strategy in ("order", "hungarian", "anchor"):
+        try:
+            E, stats, removed = _expected_after_replace(ctx, M, Rm, spec, run, res, smap, replace_all, strategy)
+            refmodel.compare(refmodel.abstract(res), E, prefix, where, order="any", pos_tol=0.0)
+            if strategy != "order":
+                ctx.count("inserted_atoms_identified_by_%s" % strategy)
+            return E, stats, removed
+        except Violation as v:
+            first = first or v
+    raise first
 
 
 def execute(spec, ctx):
@@ -207,8 +235,7 @@ def execute(spec, ctx):
         where = "replace step %d" % k
         try:
             refmodel.structural_invariants(res, where)
-            E, stats, removed = _expected_after_replace(ctx, M, Rm, sp, run, res, smap, step["replace_all"])
-            refmodel.compare(refmodel.abstract(res), E, "c06", where, order="any", pos_tol=0.0)
+            E, stats, removed = check_replace_result(ctx, M, Rm, sp, run, res, smap, step["replace_all"], "c06", where)
         except Violation as v:
             if site_suffix:
                 raise Violation(v.cls, v.msg, site="replace" + site_suffix)
